@@ -104,7 +104,7 @@ def predicate_tables(ctx, fn_name):
 def upvar_kinds(ctx, fn_name):
     """for each any-closure: does the captured char compared with the other's FILE come from get_file_char(own origin)? (same for rank)"""
     facts = ctx.facts
-    ro = {CHESSMOVE + '::from_square', CHESSMOVE + '::captures', AN + 'get_file_char', AN + 'get_rank_char', TOALG}
+    ro = {CHESSMOVE + '::from_square', CHESSMOVE + '::captures', AN + 'get_file_char', AN + 'get_rank_char', TOALG, AN + 'get_ambiguous_moves'}
     outs = Engine(facts, readonly=ro).run(fn_name)
     kinds = {}
     for o in outs:
@@ -122,7 +122,7 @@ def r1_disambiguation(ctx):
     rule = 'C13.R1-disambiguation-table'
     facts = ctx.facts
     name = AN + 'get_disambiguating_chars'
-    ro = {CHESSMOVE + '::from_square', CHESSMOVE + '::captures', AN + 'get_file_char', AN + 'get_rank_char', TOALG}
+    ro = {CHESSMOVE + '::from_square', CHESSMOVE + '::captures', AN + 'get_file_char', AN + 'get_rank_char', TOALG, AN + 'get_ambiguous_moves'}
     outs = Engine(facts, readonly=ro).run(name)
     ctx.touch(name)
     preds = predicate_tables(ctx, name)
@@ -207,6 +207,8 @@ def r1_disambiguation(ctx):
     uk = upvar_kinds(ctx, name)
     okc = bool(uk)
     for cname, caps in uk.items():
+        if cname not in preds:
+            continue
         tbl = preds.get(cname) or {}
         uses_f = tbl.get((1, 0)) != tbl.get((0, 0)) or tbl.get((1, 1)) != tbl.get((0, 1))
         uses_r = tbl.get((0, 1)) != tbl.get((0, 0)) or tbl.get((1, 1)) != tbl.get((1, 0))
